@@ -44,7 +44,10 @@ Texts == << [unit |-> <<>>, reps |-> 1],
             \* characters of more than one byte BEFORE the point where a small memory buffer is given up for a file
             [unit |-> <<LS, CA, NL, CB, NL, CA, NL>>, reps |-> 1],
             [unit |-> <<LS, LS, NL, CB>>, reps |-> 1],
-            [unit |-> <<LS, CB, NL>>, reps |-> 3000] >>
+            [unit |-> <<LS, CB, NL>>, reps |-> 3000],
+            \* a first line longer than any look-ahead, followed by little more
+            [unit |-> [j \in 1..130 |-> CB] \o <<NL, CA, NL>>, reps |-> 1],
+            [unit |-> [j \in 1..130 |-> CB] \o <<NL, NL>>, reps |-> 1] >>
 Kinds == {"file", "program"}
 \* num-lines / matches -full / equals -contents-of / run / the lines after the first (a consumer that reads the
 \* head of the text in one pass over its lines and the rest in a second one) / the first line only
